@@ -86,6 +86,27 @@ def _matrix(self, light_set) -> None:
         width = light.get_width()
     self._reg.matrix = ColorMatrix.new_from_constant(height, width, None)
 ''',
+        # repair of D48: a matrix light whose size was never learned (C12) gets the scratch size;
+        # the lights of the C15 model always have a size, so this branch is outside the model
+        'size_guard': '''
+@inject(LightSet)
+def _matrix(self, light_set) -> None:
+    name = self._reg.name
+    light = light_set.get_light(name)
+    if light is None:
+        Machine._report_missing(name)
+        height = width = 255
+    elif not isinstance(light, MatrixLight):
+        logging.error('Light "{}" is not matrix type (Candle, Tube, etc.)'.format(name))
+        height = width = 255
+    else:
+        height = light.get_height()
+        width = light.get_width()
+        if height is None or width is None:
+            logging.error('Size of matrix light "{}" is unknown.'.format(name))
+            height = width = 255
+    self._reg.matrix = ColorMatrix.new_from_constant(height, width, None)
+''',
     },
     'Machine._color_matrix': {
         'pinned': '''
@@ -131,6 +152,16 @@ def _color_matrix_light(self) -> None:
 def _color_matrix_light(self) -> None:
     light = self._get_named_light()
     if light is not None and isinstance(light, MatrixLight):
+        matrix = self._reg.matrix
+        matrix = self._as_raw_matrix(matrix)
+        matrix.find_replace(None, self._reg.default or [0, 0, 0, 0])
+        duration = self._as_raw_time(self._reg.duration)
+        light.set_matrix(matrix, duration)
+''',
+        'isinstance_size': '''
+def _color_matrix_light(self) -> None:
+    light = self._get_named_light()
+    if light is not None and isinstance(light, MatrixLight) and (light.get_height() is not None) and (light.get_width() is not None):
         matrix = self._reg.matrix
         matrix = self._as_raw_matrix(matrix)
         matrix.find_replace(None, self._reg.default or [0, 0, 0, 0])
